@@ -221,3 +221,39 @@ package plugin
 //@   ensures E3 [C15]: result1 == nil ==> forall(a, 0, len(result0), forall(b, a + 1, len(result0), addrCompare(pfxAddr(result0[a]), pfxAddr(result0[b])) < 0))
 //@   opt safety [C15,C17]
 //@   opt frame [C15]
+
+// ---- RDNSS (C14) ------------------------------------------------------------------
+
+// C14 ranking: stable addresses first, then ULA, global unicast, link-local,
+// anything else; ties to the numerically lowest address.
+//@ macro stable14(ip) = ip.ValidForever || ip.ManageTemporaryAddresses || ip.StablePrivacy || (addrByte(pfxAddr(ip.Address), 11) == 255 && addrByte(pfxAddr(ip.Address), 12) == 254)
+//@ macro class14(a) = ite(addrIsPrivate(a), 0, ite(addrIsGlobalUnicast(a), 1, ite(addrIsLinkLocalUnicast(a), 2, 3)))
+//@ macro keyLess14(x, y) = (stable14(x) && !stable14(y)) || (stable14(x) == stable14(y) && (class14(pfxAddr(x.Address)) < class14(pfxAddr(y.Address)) || (class14(pfxAddr(x.Address)) == class14(pfxAddr(y.Address)) && addrLess(pfxAddr(x.Address), pfxAddr(y.Address)))))
+//@ macro elig14(a) = !addrIs4(pfxAddr(a.Address)) && !a.Deprecated && !a.Temporary && !a.Tentative
+
+//@ func isEUI64
+//@   ensures E1 [C14]: result == (addrByte(ip, 11) == 255 && addrByte(ip, 12) == 254)
+//@   opt safety [C14]
+//@ func isStable
+//@   ensures E1 [C14]: result == stable14(ip)
+//@   opt safety [C14]
+
+//@ func betterRDNSS
+//@   loop 1 invariant B0 [C14]: 0 <= rangeindex + 1 && rangeindex + 1 <= 3 && cIP == pfxAddr(current.Address) && bIP == pfxAddr(best.Address) && okC == stable14(current) && okB == stable14(best) && okC == okB && pfxValid(best.Address)
+//@   loop 1 invariant B1 [C14]: (rangeindex >= 0 ==> !addrIsPrivate(cIP) && !addrIsPrivate(bIP)) && (rangeindex >= 1 ==> !addrIsGlobalUnicast(cIP) && !addrIsGlobalUnicast(bIP)) && (rangeindex >= 2 ==> !addrIsLinkLocalUnicast(cIP) && !addrIsLinkLocalUnicast(bIP))
+//@   ensures E1 [C14]: result == ite(!pfxValid(best.Address), current, ite(keyLess14(current, best), current, best))
+//@   opt safety [C14]
+
+//@ func (*RDNSS).current
+//@   ghost local addrsErr Iface
+//@   requires P1: r != nil && r.Addrs != nil
+//@   assigns new mem(system.IP), ghost.lastAddrs
+//@   at call Addrs() (as, aerr): ghost.lastAddrs = as ; ghost.addrsErr = aerr
+//@   loop 1 invariant F0 [C14]: 0 <= rangeindex + 1 && rangeindex + 1 <= len(addrs) && ghost.lastAddrs == addrs && forall(j, 0, len(addrs), ipOK(addrs[j]))
+//@   loop 1 invariant F1 [C14]: !pfxValid(best.Address) ==> best.Address == pfxZero && forall(j, 0, rangeindex + 1, !elig14(addrs[j]))
+//@   loop 1 invariant F2 [C14]: pfxValid(best.Address) ==> elig14(best) && exists(j, 0, rangeindex + 1, addrs[j] == best) && forall(j, 0, rangeindex + 1, elig14(addrs[j]) ==> !keyLess14(addrs[j], best))
+//@   ensures E1 [C14]: ghost.addrsErr != nil ==> result1 != nil
+//@   ensures E2 [C14]: result1 == nil ==> exists(j, 0, len(ghost.lastAddrs), elig14(typed(ghost.lastAddrs, "[]system.IP")[j]) && pfxAddr(typed(ghost.lastAddrs, "[]system.IP")[j].Address) == result0 && forall(j2, 0, len(ghost.lastAddrs), elig14(typed(ghost.lastAddrs, "[]system.IP")[j2]) ==> !keyLess14(typed(ghost.lastAddrs, "[]system.IP")[j2], typed(ghost.lastAddrs, "[]system.IP")[j])))
+//@   ensures E3 [C14]: result1 != nil && ghost.addrsErr == nil ==> forall(j, 0, len(ghost.lastAddrs), !elig14(typed(ghost.lastAddrs, "[]system.IP")[j]))
+//@   ensures E4 [C14,C01]: result1 == nil ==> addrIsValid(result0)
+//@   opt safety [C14,C17]
